@@ -81,37 +81,39 @@ type Ledger struct {
 }
 
 type Profile struct {
-	Inline       bool // inline formatting inside paragraphs
-	InlineAttrs  bool // inline elements may carry attributes (hidden spans...) -> paragraphs not "simple"
-	JSAnchors    bool
-	Headings     bool
-	Lists        bool
-	Quotes       bool
-	Pre          bool
-	Images       bool
-	Figures      bool
-	Videos       bool
-	Embeds       bool
-	Twitter      bool
-	DataTables   bool
-	LayoutTables bool
-	Chrome       bool
-	Wrappers     bool
-	Hidden       bool // hidden / script / style / comment carriers
-	Skipped      bool // form controls, noscript, svg, ...
-	AttrNoise    bool
-	RelURLs      bool // all reference forms (otherwise root-relative only)
-	MediaInText  bool // media inside paragraphs / list items
-	Glue         bool // words that continue across inline element, <wbr> and comment boundaries
-	MXSS         bool // inert text that serialise+parse can turn into live markup (foreign content)
-	Punct        bool // attach / detach punctuation around words
-	NonASCII     bool // sprinkle non-ASCII filler words between tokens (only for pages delivered as trees)
-	Unlikely     int  // per-mille of wrappers that carry an "unlikely content" class / id / role
-	ShortBias    int  // per-mille of short paragraphs
-	MinBlocks    int
-	MaxBlocks    int
-	PageURL      string
-	TitleWords   int
+	Inline        bool // inline formatting inside paragraphs
+	InlineAttrs   bool // inline elements may carry attributes (hidden spans...) -> paragraphs not "simple"
+	JSAnchors     bool
+	Headings      bool
+	Lists         bool
+	Quotes        bool
+	Pre           bool
+	Images        bool
+	Figures       bool
+	Videos        bool
+	Embeds        bool
+	Twitter       bool
+	DataTables    bool
+	LayoutTables  bool
+	Chrome        bool
+	Wrappers      bool
+	Hidden        bool // hidden / script / style / comment carriers
+	Skipped       bool // form controls, noscript, svg, ...
+	AttrNoise     bool
+	RelURLs       bool // all reference forms (otherwise root-relative only)
+	MediaInText   bool // media inside paragraphs / list items
+	NeverRendered bool // <template>, <noembed>, <noframes> with text
+	OddSpaces     bool // words separated by no-break and other non-ASCII spaces
+	Glue          bool // words that continue across inline element, <wbr> and comment boundaries
+	MXSS          bool // inert text that serialise+parse can turn into live markup (foreign content)
+	Punct         bool // attach / detach punctuation around words
+	NonASCII      bool // sprinkle non-ASCII filler words between tokens (only for pages delivered as trees)
+	Unlikely      int  // per-mille of wrappers that carry an "unlikely content" class / id / role
+	ShortBias     int  // per-mille of short paragraphs
+	MinBlocks     int
+	MaxBlocks     int
+	PageURL       string
+	TitleWords    int
 }
 
 type ArtGen struct {
@@ -183,7 +185,7 @@ var glueSuffixes = []string{"s", "ing", "ed", "'s"}
 // characters that look like markup; {source form, visible word}.
 var escapedLiterals = [][2]string{{"caf&amp;eacute;", "caf&eacute;"}, {"&lt;Integer&gt;", "<Integer>"}, {"&amp;lt;b&amp;gt;", "&lt;b&gt;"}, {"a&lt;b", "a<b"}, {"&amp;amp;", "&amp;"}}
 
-var nonASCIIFillers = []string{"città", "Århus", "Šiauliai", "naïve", "Рх", "straße", "déjà", "œuvre", "Ελλάδα", "señor", "Ünal", "†"}
+var nonASCIIFillers = []string{"città", "Århus", "Šiauliai", "naïve", "Рх", "straße", "déjà", "œuvre", "Ελλάδα", "señor", "Ünal", "†", `|\/|`, `|\/|4573R`}
 
 func (g *ArtGen) toks(n int) string {
 	k := g.textKind()
@@ -213,6 +215,10 @@ func (g *ArtGen) toks(n int) string {
 				parts[i] += " ?"
 			}
 		}
+	}
+	if g.P.OddSpaces && n > 1 && g.r.Chance(1, 5) {
+		// white space that is not ASCII: still white space (written as character references)
+		return strings.Join(parts, []string{"&nbsp;", "&emsp;", "&#x2009;", " &nbsp; ", "&#x3000;"}[g.r.Intn(5)])
 	}
 	return strings.Join(parts, " ")
 }
@@ -253,7 +259,7 @@ func (g *ArtGen) noiseClass(class string) string {
 // ---------------------------------------------------------------------------
 // URL references (C06)
 
-var refForms = []string{"path", "dot", "dotdot", "root", "scheme", "query", "abs", "frag", "data", "js", "bad", "embedded", "proxy", "comma", "pad-path", "pad-root"}
+var refForms = []string{"path", "dot", "dotdot", "root", "scheme", "query", "abs", "frag", "data", "js", "bad", "embedded", "proxy", "comma", "pad-path", "pad-root", "js-case", "data-case", "enc-slash", "enc-query", "nfd"}
 
 func splitPage(page string) (origin, dir, path string) {
 	// page is http://host/a/b/c.html[?q][#f]
@@ -314,6 +320,21 @@ func (g *ArtGen) ref(carrier, attr, where, ext string, forms []string) string {
 	case "js":
 		raw = "javascript:void('" + id + "')"
 		exp = raw
+	case "nfd": // an absolute URL with a decomposed accent and a soft hyphen: passed through unchanged, byte for byte
+		raw = "http://other.example/re\u0301sume\u0301/soft\u00adhyphen/" + id + ext
+		exp = raw
+	case "js-case": // the scheme of an URL is case-insensitive; the reference passes through unchanged
+		raw = "JavaScript:show('#" + id + " tab')"
+		exp = raw
+	case "data-case":
+		raw = "Data:text/plain," + id + "#a b"
+		exp = raw
+	case "enc-slash": // an escaped reserved character next to a character that has to be escaped
+		raw = "/wiki/" + id + "%2FDC discography" + ext
+		exp = origin + "/wiki/" + id + "%2FDC%20discography" + ext
+	case "enc-query": // likewise, with a non-ASCII letter
+		raw = "caf\u00e9%3Fx/" + id + ext
+		exp = origin + dir + "caf%C3%A9%3Fx/" + id + ext
 	case "bad":
 		raw = "http://[bad/" + id + ext
 		exp = raw
@@ -339,8 +360,8 @@ func (g *ArtGen) ref(carrier, attr, where, ext string, forms []string) string {
 	return raw
 }
 
-var linkForms = []string{"path", "dot", "dotdot", "root", "scheme", "query", "abs", "frag", "data", "bad", "js", "path", "root", "embedded", "proxy", "comma", "pad-path", "pad-root"}
-var mediaForms = []string{"path", "dot", "dotdot", "root", "scheme", "abs", "path", "root", "query", "embedded", "proxy", "comma", "pad-path", "pad-root"}
+var linkForms = []string{"path", "dot", "dotdot", "root", "scheme", "query", "abs", "frag", "data", "bad", "js", "path", "root", "embedded", "proxy", "comma", "pad-path", "pad-root", "js-case", "data-case", "enc-slash", "enc-query", "nfd"}
+var mediaForms = []string{"path", "dot", "dotdot", "root", "scheme", "abs", "path", "root", "query", "embedded", "proxy", "comma", "pad-path", "pad-root", "enc-slash", "enc-query", "nfd"}
 var srcsetForms = []string{"path", "dot", "dotdot", "root", "scheme", "abs", "comma", "proxy"}
 
 func (g *ArtGen) where() string {
@@ -355,6 +376,9 @@ func (g *ArtGen) where() string {
 
 // ---------------------------------------------------------------------------
 // inline content
+
+// glueTags: phrasing elements inside which a word may start or end (1<sup>st</sup>, 12<small>%</small>).
+var glueTags = []string{"b", "i", "em", "strong", "span", "u", "code", "font", "small", "big", "strike", "samp", "nobr", "sub", "sup", "abbr", "cite", "mark", "s", "var", "kbd", "tt"}
 
 var inlineTags = []string{"b", "i", "em", "strong", "span", "u", "code", "font"}
 
@@ -420,7 +444,7 @@ func (g *ArtGen) inlineRun(n int) string {
 		switch {
 		case (c == 0 || c == 1) && g.P.Glue && g.r.Chance(1, 3):
 			// a word that starts or ends outside the inline element / is broken by <wbr> or a comment
-			t := inlineTags[g.r.Intn(len(inlineTags))]
+			t := glueTags[g.r.Intn(len(glueTags))]
 			suffix := glueSuffixes[g.r.Intn(len(glueSuffixes))]
 			switch g.r.Intn(4) {
 			case 0:
@@ -726,7 +750,7 @@ func (g *ArtGen) figure() {
 // ---------------------------------------------------------------------------
 // hidden and skipped carriers (C04)
 
-var hiddenBlockKinds = []string{"script", "style", "comment", "hidden-attr", "display-none", "vis-hidden", "vis-collapse", "aria-hidden", "display-none-nested", "figcaption-hidden", "script-styled", "style-styled", "figure-hidden-caption", "display-none-font"}
+var hiddenBlockKinds = []string{"script", "style", "comment", "hidden-attr", "display-none", "vis-hidden", "vis-collapse", "aria-hidden", "display-none-nested", "figcaption-hidden", "script-styled", "style-styled", "figure-hidden-caption", "display-none-font", "figure-hidden-picture"}
 var skippedKinds = []string{"form", "input", "button", "select", "textarea", "noscript", "svg", "object", "embed", "applet", "iframe"}
 
 func (g *ArtGen) hiddenCarrier(kind string) {
@@ -777,6 +801,10 @@ func (g *ArtGen) hiddenCarrier(kind string) {
 		g.w(`<script style="display:block">var y = "` + t(2) + `";</script>`)
 	case "style-styled":
 		g.w(`<style style="display: block" media="all">.` + t(1) + ` { color: blue }</style>`)
+	case "figure-hidden-picture":
+		// a hidden placeholder picture (with stray text) in front of the real image of a figure
+		hid := []string{` style="display:none"`, ` hidden`, ` aria-hidden="true"`}[g.r.Intn(3)]
+		g.w(`<figure><picture` + hid + `>` + t(2) + `<img src="/img/spinner` + fmt.Sprint(len(g.L.Toks)) + `.gif" width="600" height="400"></picture><img src="/img/real` + fmt.Sprint(len(g.L.Toks)) + `.png" width="600" height="400"></figure>`)
 	case "figcaption-hidden":
 		g.w(`<figcaption hidden>` + t(2) + ` <a href="/hid/cap.html">` + t(1) + `</a></figcaption>`)
 	case "display-none-font":
@@ -816,6 +844,13 @@ func (g *ArtGen) skippedCarrier(kind string) {
 }
 
 func (g *ArtGen) carrier() {
+	if g.P.NeverRendered && g.r.Chance(1, 3) {
+		// elements whose content a browser never renders (C02: not visible text of the source)
+		k := []string{"template", "noembed", "noframes"}[g.r.Intn(3)]
+		g.L.Kinds["hidden:"+k]++
+		g.w(`<` + k + `>` + []string{"", "<p>"}[g.r.Intn(2)] + g.toksK(2+g.r.Intn(4), KHidden, k) + `</` + k + `>`)
+		return
+	}
 	if g.P.Hidden && (!g.P.Skipped || g.r.Chance(1, 2)) {
 		g.hiddenCarrier(hiddenBlockKinds[g.r.Intn(len(hiddenBlockKinds))])
 	} else if g.P.Skipped {
@@ -1014,6 +1049,11 @@ func (g *ArtGen) list() {
 			g.paragraph(g.paraLen())
 		default:
 			g.inlineRun(3 + g.r.Intn(30))
+			if g.P.Wrappers && g.r.Chance(1, 8) {
+				// a wordless element that is skipped, between two runs of text of the same item
+				g.w([]string{`<input type="text" name="q">`, `<button type="button"></button>`, `<select name="s"></select>`, `<div><script>var z=1</script></div>`}[g.r.Intn(4)])
+				g.inlineRun(3 + g.r.Intn(10))
+			}
 		}
 		if g.P.MediaInText && g.r.Chance(1, 8) {
 			g.media(true)
@@ -1059,7 +1099,13 @@ func (g *ArtGen) block() {
 			// elements whose display is not what their tag suggests
 			g.L.Kinds["styled-wrapper"]++
 			n := 15 + g.r.Intn(40)
-			switch g.r.Intn(8) {
+			switch g.r.Intn(11) {
+			case 8: // inline elements displayed as blocks, written without white space between them
+				g.w(`<div><span style="display:block">` + g.toks(n) + `</span><span style="display:block">` + g.toks(8) + `</span><b style="display: flex">` + g.toks(5) + `</b></div>` + "\n")
+			case 9:
+				g.w(`<ul><li><span style="display:block">` + g.toks(n) + `</span><span style="display:block">` + g.toks(8) + `</span></li><li>` + g.toks(12) + `</li></ul>` + "\n")
+			case 10:
+				g.w(`<p>` + g.toks(n) + `<em style="display:block">` + g.toks(6) + `</em>` + g.toks(7) + `</p>` + "\n")
 			case 0:
 				g.w(`<dialog style="display: block"` + g.noise() + `>` + g.toks(n) + `</dialog>` + "\n")
 			case 1:
